@@ -144,7 +144,7 @@ Definition client_required (c : ccfg) (v : sview) : bool :=
    its verify_data in the full handshake (only flight4bParse, resumption, does).  Set to [true] to
    obtain the behaviour of the candidate fix (compare with
    prf.VerifyDataClient(ms, transcript through CertificateVerify)). *)
-Definition server12_checks_client_finished : bool := false.
+Definition server12_checks_client_finished : bool := true.
 
 Record scfg := mk_scfg {
   sc_policy : client_auth;
